@@ -785,6 +785,16 @@ def r16_6(ctx, rc):
                     n.generators[1].iter.attr == 'suboperations':
                 cond = bool(n.generators[0].ifs or n.generators[1].ifs)
                 found = (n.generators[0].iter, cond, f, n)
+            elif isinstance(n, (ast.SetComp, ast.ListComp, ast.GeneratorExp)) \
+                    and len(n.generators) == 1 and isinstance(
+                        n.elt, ast.Attribute) and \
+                    n.elt.attr == 'suboperations' and isinstance(
+                        n.elt.value, ast.Name) and isinstance(
+                            n.generators[0].target, ast.Name) and \
+                    n.elt.value.id == n.generators[0].target.id:
+                # chain.from_iterable(op.suboperations for op in X)
+                found = (n.generators[0].iter, bool(n.generators[0].ifs),
+                         f, n)
     ok = found is not None and not found[1] and ser_iter is not None and \
         ast.dump(found[0]) == ast.dump(ser_iter)
     if ok:
